@@ -13,7 +13,11 @@
 (*       case from the product of field classes (type x nonce x gas x      *)
 (*       amount x price x tip/cap relation x data x access list x to x     *)
 (*       signature form x chain id x base fee), restricted to the          *)
-(*       combinations that exist (Feasible...).  TLC enumerates the        *)
+(*       combinations that exist (Feasible...), and crossed with the       *)
+(*       ENVELOPE around the signed transaction (how the recorded hash is  *)
+(*       spelled x what the From field says: the point the wrapping API    *)
+(*       produces, or any other for an envelope built by hand and met on   *)
+(*       the receiving side).  TLC enumerates the                          *)
 (*       product and prints every case as JSON; the harness executes one   *)
 (*       real transaction per case.                                        *)
 (*  (ii) the DERIVED FIGURES and identities of the property statement      *)
@@ -36,12 +40,13 @@
 (* Numbers are decimal strings (module BigNum).  A case is a record of     *)
 (* class names                                                             *)
 (*   [type, nonce, gas, amount, price, rel, data, access, to, sig, chain,  *)
-(*    base]                                                                *)
+(*    base, rec, from]                                                     *)
 (* and a valuation is a record of concrete numbers for the numeric fields. *)
 (***************************************************************************)
 EXTENDS Integers, Sequences, FiniteSets, TLC, Json, BigNum
 
-CONSTANTS Tier      \* "quick": factored product (see QuickSpaces), "full": the full product
+CONSTANTS Tier,     \* "quick": factored product (see QuickSpaces), "full": the full product
+          EnvDefects \* named mutation witnesses of the acceptance rules M ({} = as built)
 
 Two63  == "9223372036854775808"
 MaxI64 == "9223372036854775807"
@@ -68,6 +73,30 @@ ToC    == {"create", "call", "zero"}
 ChainC == {"1", "11235", "2p63"}                      \* "none" for unprotected legacy
 BaseDyn == {"nil", "0", "below", "edge", "between", "above"}
 BaseOther == {"nil", "0", "some"}
+
+\* THE ENVELOPE ITSELF.  A MsgEthereumTx carries, next to the signed transaction, fields that no signature
+\* covers: the recorded hash (a STRING) and the From address (a string).  The wrapping API (FromEthereumTx,
+\* NewTx, UnmarshalBinary) produces exactly one point of that space - the canonical spelling of the hash
+\* ("0x" + 64 lower-case hex digits, what Hash.Hex() prints) and an empty From.  But the receiving side
+\* decodes whatever bytes a sender put on the wire: the envelope may be HAND-BUILT, and then these fields
+\* are inputs like any other.  RecC: how the sender spelled the recorded hash; FromC: what it wrote into From.
+RecC  == {"canon",       \* Hash.Hex() of the transaction
+          "upper",       \* the same digits in upper case
+          "mixed",       \* the same digits in mixed case
+          "capsprefix",  \* "0X" prefix
+          "noprefix",    \* the 64 digits without prefix
+          "odd",         \* one more leading 0 digit (odd number of digits, numerically the same)
+          "zeropad",     \* more leading 00 bytes (numerically the same, more than 32 bytes)
+          "longer",      \* other bytes in front of the right 32
+          "wrong",       \* canonical spelling of other 32 bytes
+          "empty"}       \* nothing recorded
+FromC == {"empty", "signer", "foreign", "garbage"}
+\* spellings a lenient parser (go-ethereum's HexToHash: optional prefix, any case, odd length, crops from the
+\* left) maps to the bytes of the Ethereum hash although the recorded STRING is not the Ethereum hash
+RecDenotesSame == RecC \ {"wrong", "empty"}
+ApiRec  == "canon"
+ApiFrom == "empty"
+HandBuilt(c) == c.rec # ApiRec \/ c.from # ApiFrom
 
 \* the value go-ethereum reports for a point class (a nil amount is reported as 0)
 PointVal(c) == CASE c = "nil" -> "0" [] c = "0" -> "0" [] c = "1" -> "1" [] c = "2p64" -> Two64
@@ -123,15 +152,17 @@ BaseOf(t, pr) ==
             /\ tr # <<>>
             /\ \E tip \in {tr[1], tr[2]} : BaseRange(b, tip, cap) # <<>>}
 
-Mk(t, n, g, a, pr, d, ac, to, sc, b) ==
+MkH(t, n, g, a, pr, d, ac, to, sc, b, rec, from) ==
     [type |-> t, nonce |-> n, gas |-> g, amount |-> a, price |-> pr[1], rel |-> pr[2], data |-> d,
-     access |-> ac, to |-> to, sig |-> sc[1], chain |-> sc[2], base |-> b]
+     access |-> ac, to |-> to, sig |-> sc[1], chain |-> sc[2], base |-> b, rec |-> rec, from |-> from]
+\* the envelope the wrapping API makes
+Mk(t, n, g, a, pr, d, ac, to, sc, b) == MkH(t, n, g, a, pr, d, ac, to, sc, b, ApiRec, ApiFrom)
 
 \* A space is a record of the class sets allowed per field; its cases are the feasible combinations.
 FullSpace == [types |-> Types, nonce |-> NonceC, gas |-> GasC, amount |-> AmtC,
               pricerel |-> (AmtC \X (RelC \cup {"na"})), data |-> DataC, access |-> AccessC \cup {"na"},
               to |-> ToC, sigchain |-> ({"eip155", "typed"} \X ChainC) \cup {<<"unprotected", "none">>},
-              base |-> BaseDyn \cup BaseOther]
+              base |-> BaseDyn \cup BaseOther, rec |-> RecC, from |-> FromC]
 
 InSpace(c, sp) ==
     /\ c.type \in sp.types /\ c.nonce \in sp.nonce /\ c.gas \in sp.gas /\ c.amount \in sp.amount
@@ -139,6 +170,7 @@ InSpace(c, sp) ==
     /\ c.data \in sp.data /\ c.access \in (AccessOf(c.type) \cap sp.access) /\ c.to \in sp.to
     /\ <<c.sig, c.chain>> \in (SigChainOf(c.type) \cap sp.sigchain)
     /\ c.base \in (BaseOf(c.type, <<c.price, c.rel>>) \cap sp.base)
+    /\ c.rec \in sp.rec /\ c.from \in sp.from
 
 \* The quick tier factors the product.  The fields fall into two groups that the code treats
 \* independently: NUMERIC (gas, amount, price, rel, base: fee/cost/effective figures, 256-bit bounds,
@@ -156,18 +188,29 @@ NumBg == <<
     [gas |-> {"21000"}, amount |-> {"1"}, pricerel |-> {<<"2p64", "na">>, <<"2p64", "lt">>}, base |-> {"some", "below"}],
     [gas |-> {"maxi64"}, amount |-> {"max256"}, pricerel |-> {<<"1", "na">>, <<"1", "eq">>}, base |-> {"nil"}],
     [gas |-> {"21000"}, amount |-> {"nil"}, pricerel |-> {<<"0", "na">>, <<"0", "eq">>}, base |-> {"0"}] >>
-WithStruct(bg) == [FullSpace EXCEPT !.nonce = bg.nonce, !.data = bg.data, !.access = bg.access, !.to = bg.to,
-                                    !.sigchain = bg.sigchain]
-WithNum(bg)    == [FullSpace EXCEPT !.gas = bg.gas, !.amount = bg.amount, !.pricerel = bg.pricerel, !.base = bg.base]
-QuickSpaces == {WithStruct(StructBg[i]) : i \in 1..3} \cup {WithNum(NumBg[i]) : i \in 1..3}
-Spaces == IF Tier = "full" THEN {FullSpace} ELSE QuickSpaces
+\* A third group, the ENVELOPE (rec, from), is independent of both: ValidateBasic compares two strings and
+\* checks an address, the codecs carry two strings.  Both tiers cross ALL envelope combinations with the type
+\* on three (structural x numeric) backgrounds and keep the envelope at the API point everywhere else; the full tier adds all envelope
+\* combinations x all signature forms / chain ids x to x data on the first background.
+ApiSpace == [FullSpace EXCEPT !.rec = {ApiRec}, !.from = {ApiFrom}]
+WithStructOf(sp, bg) == [sp EXCEPT !.nonce = bg.nonce, !.data = bg.data, !.access = bg.access, !.to = bg.to,
+                                   !.sigchain = bg.sigchain]
+WithNumOf(sp, bg)    == [sp EXCEPT !.gas = bg.gas, !.amount = bg.amount, !.pricerel = bg.pricerel, !.base = bg.base]
+WithStruct(bg) == WithStructOf(ApiSpace, bg)
+WithNum(bg)    == WithNumOf(ApiSpace, bg)
+HandSpace(i)   == WithNumOf(WithStructOf(FullSpace, StructBg[i]), NumBg[i])
+HandSpaces     == {HandSpace(i) : i \in 1..3}
+HandSpaceWide  == [HandSpace(1) EXCEPT !.to = ToC, !.data = DataC, !.sigchain = FullSpace.sigchain]
+QuickSpaces == {WithStruct(StructBg[i]) : i \in 1..3} \cup {WithNum(NumBg[i]) : i \in 1..3} \cup HandSpaces
+Spaces == IF Tier = "full" THEN {ApiSpace, HandSpaceWide} \cup HandSpaces ELSE QuickSpaces
 
 \* Cases outside the product: out-of-range values.  Whatever the code does with them (reject at
 \* construction, panic, accept) is recorded; P applies to those it wraps.
 ExtraBase(t) == [type |-> t, nonce |-> "1", gas |-> "21000", amount |-> "1", price |-> "2p64",
                  rel |-> IF IsDyn(t) THEN "eq" ELSE "na", data |-> "1",
                  access |-> IF t = "legacy" THEN "na" ELSE "nil", to |-> "call",
-                 sig |-> IF t = "legacy" THEN "eip155" ELSE "typed", chain |-> "11235", base |-> "nil"]
+                 sig |-> IF t = "legacy" THEN "eip155" ELSE "typed", chain |-> "11235", base |-> "nil",
+                 rec |-> ApiRec, from |-> ApiFrom]
 ExtraCases ==
     UNION {{ [ExtraBase(t) EXCEPT !.amount = "over256"],
              [ExtraBase(t) EXCEPT !.price = "over256"],
@@ -238,6 +281,18 @@ MValidateBasic(f) ==
     ELSE IF BigLT(MaxI64, f.gas) THEN "gas-overflow"
     ELSE MTxValidate(f)
 
+\* ValidateBasic on the RECEIVING side, for an envelope with the given spelling of the recorded hash and From field
+\* (the order of the code: From must be a hex address if present; gas; TxData.Validate; at the end the recorded
+\* hash is compared AS A STRING with Hash().Hex() of the transaction).  The named defect is not a known
+\* deviation of the code but a mutation witness (Envelope_witness_hashasbytes.cfg must FAIL): a machine that
+\* parses the recorded hash and compares bytes.
+MValidateEnvelope(f, c) ==
+    IF c.from = "garbage" THEN "from-invalid"
+    ELSE IF MValidateBasic(f) # "ok" THEN MValidateBasic(f)
+    ELSE IF c.rec = "canon" THEN "ok"
+    ELSE IF "HashComparedAsBytes" \in EnvDefects /\ c.rec \in RecDenotesSame THEN "ok"
+    ELSE "hash-mismatch"
+
 \* BuildTx converts Fee() with NewIntFromBigInt: panics above 256 bits
 MBuild(f) == IF Fits256(FeeOf(f)) THEN "ok" ELSE "panic"
 
@@ -278,8 +333,8 @@ Pick(sp, emit) ==
     \E t \in sp.types : \E pr \in (PriceRelOf(t) \cap sp.pricerel) :
     \E n \in sp.nonce, g \in sp.gas, a \in sp.amount, d \in sp.data, to \in sp.to :
     \E ac \in (AccessOf(t) \cap sp.access) : \E sc \in (SigChainOf(t) \cap sp.sigchain) :
-    \E b \in (BaseOf(t, pr) \cap sp.base) :
-       /\ cs' = Mk(t, n, g, a, pr, d, ac, to, sc, b)
+    \E b \in (BaseOf(t, pr) \cap sp.base) : \E rec \in sp.rec, from \in sp.from :
+       /\ cs' = MkH(t, n, g, a, pr, d, ac, to, sc, b, rec, from)
        /\ IF emit THEN x' = NoCase /\ PrintT(<<"CASE", ToJson(cs')>>)
                   ELSE \E v \in Valuations(cs') : x' = v
 
@@ -352,6 +407,13 @@ Inv_Validate ==
               /\ EffDefined(x, x.base) => Fits256(EffFeeOf(x, x.base))
         /\ InProduct => MWrap(x) = "ok"
         /\ (MBuild(x) = "panic" /\ MWrap(x) = "ok") => MValidateBasic(x) # "ok"
+
+\* P on the envelope dimension, on the model: "the hash recorded in the message always equals the Ethereum hash" -
+\* whatever the receiving side ACCEPTS records the canonical string, whoever built the envelope; and the fields
+\* outside the signature never decide more than that (an accepted hand-built envelope carries a transaction the
+\* API-built envelope would have been accepted with)
+Inv_RecordedHashOfAccepted ==
+    Picked => (MValidateEnvelope(x, cs) = "ok" => cs.rec = "canon" /\ MValidateBasic(x) = "ok")
 
 \* EIP-155: the chain id derived from v is the chain id signed for; 27/28 derive 0
 Inv_ChainId ==
